@@ -177,6 +177,8 @@ type unmarshalEntry struct {
 // hasher implements hash.Hash to be registered as custom multihash
 // hasher is the *hack* to inject custom verification logic into Bitswap
 type hasher struct {
+	// MhCode is the multihash code the hasher is registered for
+	MhCode uint64 // to be set during hasher registration
 	// IDSize of the respective Shwap container
 	IDSize int // to be set during hasher registration
 
@@ -204,6 +206,13 @@ func (h *hasher) write(data []byte) error {
 	id, err := extractFromCID(cid)
 	if err != nil {
 		return err
+	}
+
+	// The multihash code and length of the outer CID are chosen by the sender. Ensure the block
+	// is of the type this hasher is invoked for, otherwise the ID of another Block type, truncated to
+	// this type's ID size, would satisfy a request the block does not populate.
+	if mhType := cid.Prefix().MhType; mhType != h.MhCode {
+		return fmt.Errorf("block with multihash code %d hashed as %d", mhType, h.MhCode)
 	}
 
 	// get registered UnmarshalFn and use it to check data validity and
